@@ -164,6 +164,7 @@ impl Word {
             'g' => 'ɡ',
             '?' => 'ʔ',
             '!' => 'ǃ',
+            '\u{035C}' => '\u{0361}', // the tie may be written below (`t͜s`); the base phones are spelt with the one above
             other => other
         }
     }
